@@ -10,6 +10,7 @@ include!(concat!(env!("OUT_DIR"), "/fml_mods.rs"));
 
 pub const FML_ROOT: &str = env!("FMLV_FML_ROOT");
 
+pub mod bc;
 pub mod cli;
 pub mod fmlrun;
 pub mod gen;
